@@ -2,13 +2,33 @@
 // number is the byte; HashMap, Vec and Rc are heap-free stand-ins with the std method names (M20, M21).
 use core::mem::MaybeUninit;
 pub const CAP: usize = 4;
-#[derive(Clone, Copy, PartialEq, Eq, PartialOrd, Ord, Debug)] pub struct String(pub u8);
+// a text of up to 3 ASCII characters (no heap); ordered as text; parse() reads it as a decimal number
+#[derive(Clone, Copy, PartialEq, Eq, Debug)] pub struct String { pub b: [u8; 3], pub n: u8 }
+pub fn tok(s: &str) -> String { let mut r = String::new(); r.push_str(s); r }
+pub fn num(v: u8) -> String { let mut r = String::new(); if v >= 10 { r.push(b'0' + v / 10); } r.push(b'0' + v % 10); r }
 impl String {
-    pub fn new() -> String { String(0) }
+    pub fn new() -> String { String { b: [0; 3], n: 0 } }
+    fn push(&mut self, c: u8) { if (self.n as usize) < 3 { self.b[self.n as usize] = c; self.n += 1; } else { kani::assume(false); } }
+    pub fn push_str<S: AsBytes + ?Sized>(&mut self, s: &S) { let (b, n) = s.bytes3(); let mut i = 0; while i < n { self.push(b[i]); i += 1; } }
     pub fn to_string(&self) -> String { *self }
     pub fn to_lowercase(&self) -> String { *self }
-    pub fn parse<T: From<u8>>(&self) -> Result<T, ()> { Ok(T::from(self.0)) }
+    pub fn is_empty(&self) -> bool { self.n == 0 }
+    pub fn value(&self) -> u8 { let mut v = 0u8; let mut i = 0; while i < self.n as usize { v = v * 10 + (self.b[i] - b'0'); i += 1; } v }
+    pub fn parse<T: From<u8>>(&self) -> Result<T, ()> {
+        if self.n == 0 { return Err(()); }
+        let mut i = 0; while i < self.n as usize { if self.b[i] < b'0' || self.b[i] > b'9' { return Err(()); } i += 1; }
+        Ok(T::from(self.value()))
+    }
 }
+impl Default for String { fn default() -> String { String::new() } }
+impl PartialOrd for String { fn partial_cmp(&self, o: &String) -> Option<core::cmp::Ordering> { Some(self.cmp(o)) } }
+impl Ord for String { fn cmp(&self, o: &String) -> core::cmp::Ordering {
+    let mut i = 0;
+    while i < self.n as usize && i < o.n as usize { match self.b[i].cmp(&o.b[i]) { core::cmp::Ordering::Equal => {}, r => return r } i += 1; }
+    self.n.cmp(&o.n) } }
+pub trait AsBytes { fn bytes3(&self) -> ([u8; 3], usize); }
+impl AsBytes for String { fn bytes3(&self) -> ([u8; 3], usize) { (self.b, self.n as usize) } }
+impl AsBytes for str { fn bytes3(&self) -> ([u8; 3], usize) { let s = self.as_bytes(); let mut b = [0u8; 3]; let mut i = 0; while i < s.len() && i < 3 { b[i] = s[i]; i += 1; } (b, i) } }
 pub struct Vec<T> { pub items: [MaybeUninit<T>; CAP], pub n: usize }
 impl<T> Vec<T> {
     pub fn new() -> Vec<T> { Vec { items: unsafe { MaybeUninit::uninit().assume_init() }, n: 0 } }
@@ -29,6 +49,10 @@ impl<T> Vec<T> {
 }
 pub struct VecIter<'a, T> { v: &'a Vec<T>, i: usize }
 impl<'a, T> Iterator for VecIter<'a, T> { type Item = &'a T; fn next(&mut self) -> Option<&'a T> { let r = self.v.get(self.i); if r.is_some() { self.i += 1; } r } }
+impl<T> Default for Vec<T> { fn default() -> Vec<T> { Vec::new() } }
+pub struct VecIntoIter<T> { v: Vec<T>, i: usize }
+impl<T> Iterator for VecIntoIter<T> { type Item = T; fn next(&mut self) -> Option<T> { if self.i < self.v.n { let x = unsafe { self.v.items[self.i].assume_init_read() }; self.i += 1; Some(x) } else { None } } }
+impl<T> IntoIterator for Vec<T> { type Item = T; type IntoIter = VecIntoIter<T>; fn into_iter(self) -> VecIntoIter<T> { VecIntoIter { v: self, i: 0 } } }
 impl<'a, T> IntoIterator for &'a Vec<T> { type Item = &'a T; type IntoIter = VecIter<'a, T>; fn into_iter(self) -> VecIter<'a, T> { self.iter() } }
 impl<T> core::ops::Index<usize> for Vec<T> { type Output = T; fn index(&self, i: usize) -> &T { self.get(i).unwrap() } }
 impl<T: PartialEq> PartialEq for Vec<T> { fn eq(&self, o: &Vec<T>) -> bool { if self.n != o.n { return false; } let mut i = 0; while i < self.n { if self.get(i) != o.get(i) { return false; } i += 1; } true } }
@@ -53,6 +77,19 @@ impl<K: PartialEq, V> HashMap<K, V> {
     pub fn is_empty(&self) -> bool { self.n == 0 }
     pub fn iter(&self) -> MapIter<'_, K, V> { MapIter { m: self, i: 0 } }
 }
+pub struct MapEntry<'a, K, V> { m: &'a mut HashMap<K, V>, k: K }
+impl<K: PartialEq, V> HashMap<K, V> {
+    pub fn entry(&mut self, k: K) -> MapEntry<'_, K, V> { MapEntry { m: self, k } }
+    pub fn into_values(self) -> VecIntoIter<V> { let mut v = Vec::new(); let mut i = 0; while i < self.n { v.push(unsafe { self.items[i].assume_init_read() }.1); i += 1; } v.into_iter() }
+}
+impl<'a, K: PartialEq, V> MapEntry<'a, K, V> {
+    pub fn or_insert_with<F: FnOnce() -> V>(self, f: F) -> &'a mut V {
+        let i = match self.m.find(&self.k) { Some(i) => i, None => { let i = self.m.n; if i < CAP { self.m.items[i] = MaybeUninit::new((self.k, f())); self.m.n += 1; } else { kani::assume(false); } i } };
+        unsafe { &mut self.m.items[i].assume_init_mut().1 }
+    }
+    pub fn or_default(self) -> &'a mut V where V: Default { self.or_insert_with(V::default) }
+}
+impl<K: PartialEq, V> core::iter::FromIterator<(K, V)> for HashMap<K, V> { fn from_iter<I: IntoIterator<Item = (K, V)>>(it: I) -> HashMap<K, V> { let mut m = HashMap::new(); for (k, v) in it { m.insert(k, v); } m } }
 pub struct MapIter<'a, K, V> { m: &'a HashMap<K, V>, i: usize }
 impl<'a, K: PartialEq, V> Iterator for MapIter<'a, K, V> { type Item = (&'a K, &'a V);
     fn next(&mut self) -> Option<(&'a K, &'a V)> { if self.i < self.m.n { let kv = self.m.at(self.i); self.i += 1; Some((&kv.0, &kv.1)) } else { None } } }
@@ -65,9 +102,9 @@ impl<T: Clone> Clone for Rc<T> { fn clone(&self) -> Rc<T> { Rc(self.0.clone()) }
 pub mod std { pub mod cmp { pub use core::cmp::Ordering; } pub mod io { pub fn stdout() -> super::super::Out { super::super::Out } } }
 // column expressions: id 5 = the grouping key column, id 7 = COUNT(*), id 8 = another key-like column that is not in the row map
 #[derive(Clone, Copy)] pub struct Expr { pub id: u8 }
-impl Expr { pub fn to_string(&self) -> String { String(self.id) } }
-pub struct Val(pub u8);
-impl Val { pub fn text(&self) -> String { String(self.0) } }
+impl Expr { pub fn to_string(&self) -> String { num(self.id) } pub fn has_aggregate_function(&self) -> bool { self.id == 7 } }
+pub struct Val(pub String);
+impl Val { pub fn text(&self) -> String { self.0 } }
 macro_rules! format { ("{}", $e:expr) => { $e.text() }; }
 pub struct DirEntry;
 pub struct FileInfo;
@@ -82,8 +119,8 @@ macro_rules! write { ($dst:expr, "{}", String::from($arg:expr)) => { $dst.emit(&
 pub struct ResultsWriter { pub rows: [(u8, u8); CAP], pub n: usize, pub separators: u32, pub sep_before_first: bool }
 impl ResultsWriter {
     pub fn write_row(&mut self, w: &mut WritableBuffer, items: Vec<(String, String)>) -> Result<(), ()> {
-        let a = match items.get(0) { Some(x) => x.1 .0, None => 0 };
-        let b = match items.get(1) { Some(x) => x.1 .0, None => 0 };
+        let a = match items.get(0) { Some(x) => x.1.value(), None => 0 };
+        let b = match items.get(1) { Some(x) => x.1.value(), None => 0 };
         if self.n < CAP { self.rows[self.n] = (a, b); self.n += 1; }
         w.rows += 1;
         Ok(())
@@ -98,8 +135,8 @@ impl<'a> Searcher<'a> {
     pub fn get_column_expr_value(&mut self, entry: Option<&DirEntry>, _fi: &Option<FileInfo>, file_map: &mut HashMap<String, String>, buffer: Option<&Vec<HashMap<String, String>>>, e: &Expr) -> Val {
         if entry.is_some() { self.evals_with_entry += 1; }
         match e.id {
-            7 => Val(match buffer { Some(rows) => rows.len() as u8, None => 200 }),
-            id => Val(match file_map.get(&String(id)) { Some(v) => v.0, None => 0 }),
+            7 => Val(num(match buffer { Some(rows) => rows.len() as u8, None => 99 })),
+            id => Val(match file_map.get(&num(id)) { Some(v) => *v, None => String::new() }),
         }
     }
 }
